@@ -1635,3 +1635,96 @@ pub mod state {
 pub fn _use(q: VecDeque<u8>) -> usize {
     q.len()
 }
+
+// ---------------------------------------------------------------- R-SCRATCH
+pub mod scratchfx {
+    pub struct Enc {
+        pub scratch: Vec<u8>,
+        pub log: Vec<u8>,
+    }
+    impl Enc {
+        fn produce(&mut self, input: &[u8], out: &mut Vec<u8>) {
+            for &b in input {
+                self.scratch.push(b ^ 1);
+            }
+            out.extend_from_slice(&self.scratch);
+        }
+        fn produce_clean(&mut self, input: &[u8], out: &mut Vec<u8>) {
+            self.scratch.clear();
+            for &b in input {
+                self.scratch.push(b ^ 1);
+            }
+            out.extend_from_slice(&self.scratch);
+        }
+        pub fn ok_encode(&mut self, input: &[u8], out: &mut Vec<u8>) {
+            self.produce_clean(input, out);
+        }
+        pub fn ok_blocks(&mut self, input: &[u8], out: &mut Vec<u8>) {
+            for block in input.chunks(4) {
+                self.scratch.clear();
+                self.produce(block, out);
+            }
+        }
+        pub fn bad_blocks(&mut self, input: &[u8], out: &mut Vec<u8>) {
+            self.scratch.clear();
+            for block in input.chunks(4) {
+                self.produce(block, out);
+            }
+        }
+        // flush idiom: handed on, then emptied
+        pub fn ok_flush(&mut self, b: u8, out: &mut Vec<u8>) {
+            self.log.push(b);
+            if self.log.len() >= 16 {
+                out.extend_from_slice(&self.log);
+                self.log.clear();
+            }
+        }
+    }
+    pub struct Enc2 {
+        pub scratch: Vec<u8>,
+    }
+    impl Enc2 {
+        fn produce(&mut self, input: &[u8], out: &mut Vec<u8>) {
+            for &b in input {
+                self.scratch.push(b ^ 1);
+            }
+            out.extend_from_slice(&self.scratch);
+        }
+        pub fn bad_encode(&mut self, input: &[u8], out: &mut Vec<u8>) {
+            self.produce(input, out);
+        }
+    }
+}
+
+// ---------------------------------------------------------------- R-NARROWCHECK
+pub mod narrowfx {
+    pub fn ok_store(values: &[u64], base: u64, width: u32, out: &mut Vec<u32>) -> Result<(), String> {
+        for &v in values {
+            let delta = v - base;
+            if delta >= (1u64 << width) {
+                return Err(format!("delta {} too large", delta));
+            }
+            out.push(delta as u32);
+        }
+        Ok(())
+    }
+    pub fn bad_store(values: &[u64], base: u64, width: u32, out: &mut Vec<u32>) -> Result<(), String> {
+        let max = ((1u64 << width) - 1) as u32;
+        for &v in values {
+            let delta = (v - base) as u32;
+            if delta > max {
+                return Err(format!("delta {} too large", delta));
+            }
+            out.push(delta);
+        }
+        Ok(())
+    }
+    pub fn ok_masked(v: u64, out: &mut Vec<u8>) -> Result<(), String> {
+        let low = (v & 0xff) as u8;
+        if low > 200 {
+            return Err("reserved".into());
+        }
+        out.push(low);
+        Ok(())
+    }
+}
